@@ -241,6 +241,8 @@ package socket
 //@       forall(i, 0, len(lastsent(resultChan).Body), lastsent(resultChan).Body[i] == ghost.rstream[r][p0 + 12 + i])
 //@   ensures [stray_response_changes_nothing] err == nil && !loaded ==> forall(ch, 0, 0, true) && ghost.chansent[resultChan] == old(ghost.chansent[resultChan])
 //@   ensures [entry_consumed] err == nil ==> !haskey(c.results, index)
+//@   ensures [a_complete_well_formed_frame_is_accepted_whether_or_not_a_caller_waits] ghost.rpos[r] == p0 + 12 + hdr_len(ghost.rstream[r], p0) &&
+//@       hdr_crcok(ghost.rstream[r], p0) && hdr_noerr(ghost.rstream[r], p0) && hdr_len(ghost.rstream[r], p0) > 0 ==> err == nil
 
 // conn.Transport: registers a fresh index, and on every return path that gives up (context done)
 // removes its own entry again: no pending entry is left behind.
